@@ -20,41 +20,50 @@ FAMS = ("ax", "val", "bud", "upg", "der")
 
 
 # ---------------------------------------------------------------------------
-# known-finding matcher: a nested key removed and later re-added with another type
+# known-finding matcher: a nested key is gained by an upgrade although stored documents already carry that key with
+# another type (the key was removed earlier and is re-added, or the value sat in an untyped map)
 
-def _key_paths(t, prefix=()):
-    """Paths of explicitly declared nested keys -> declared type, through Option / Array / wildcard maps."""
+def _key_paths(t, prefix=(), untyped=None):
+    """Paths of explicitly declared nested keys -> declared type, through Option / Array / wildcard maps.
+    `untyped` collects the paths at which an untyped map (declares nothing, accepts anything) sits."""
     out = {}
     tag = t[0]
     if tag == "option":
-        out.update(_key_paths(t[1], prefix))
+        out.update(_key_paths(t[1], prefix, untyped))
     elif tag == "array":
         for i, x in enumerate(t[1]):
-            out.update(_key_paths(x, prefix + ("[%d]" % (0 if len(t[1]) == 1 else i),)))
+            out.update(_key_paths(x, prefix + ("[%d]" % (0 if len(t[1]) == 1 else i),), untyped))
     elif tag == "map":
         es = t[1]
+        if not es and untyped is not None:
+            untyped.add(prefix)
         wild = len(es) == 1 and es[0][0] in (["text", "*"], ["bytes", ["42"]], ["i64", "i64min"])
         for k, x in es:
             p = prefix + (("*" if wild else json.dumps(k)),)
             if not wild:
                 out[p] = x
-            out.update(_key_paths(x, p))
+            out.update(_key_paths(x, p, untyped))
     return out
 
 
-def nested_key_readd(case, read):
-    """True iff the document read was written at version k, is read at version j > k, and some nested key it may carry
-    is declared with a different type at j than at k while some version in between does not declare it at all."""
+def nested_key_gained_over_stale_data(case, read):
+    """True iff the document read was written at version k, is read at version j > k under the same top-level idx, and
+    the type at j declares a nested key that (a) the type at k declares with a DIFFERENT type while some version in
+    between does not declare it at all (removed, then re-added), or (b) lies directly inside a map that was untyped
+    at k."""
     k = case["docs"][read["doc"] - 1][0]
     j = read["at"]
     decls = case["decls"]
     for name, t_k, _u in decls[k - 1]:
         at_j = [f for f in decls[j - 1] if f[0] == name]
         if not at_j or any(all(f[0] != name for f in decls[m - 1]) for m in range(k, j + 1)):
-            continue        # top-level removal gives a new idx: not this finding
-        pk, pj = _key_paths(t_k), _key_paths(at_j[0][1])
-        for p, ty in pk.items():
-            if p in pj and pj[p] != ty:
+            continue        # a removed top-level field comes back under a new idx: not this finding
+        untyped = set()
+        pk, pj = _key_paths(t_k, (), untyped), _key_paths(at_j[0][1])
+        for p, ty in pj.items():
+            if p[:-1] in untyped:
+                return True
+            if p in pk and pk[p] != ty:
                 for m in range(k + 1, j):
                     tm = [f for f in decls[m - 1] if f[0] == name][0][1]
                     if p not in _key_paths(tm):
@@ -159,24 +168,26 @@ def run(tier):
                      "document": c["docs"][r["doc"] - 1][1], "declarations": c["decls"],
                      "specification_predicts": r["expect"], "real_code": obs.get((c["c"], r["doc"], r["at"])),
                      "case": c}
-                if "nested_key_readd_type_change" in known and nested_key_readd(c, r):
+                if "nested_key_gained_over_stale_data" in known and nested_key_gained_over_stale_data(c, r):
                     known_hits.append(w)
                 else:
                     lawfails.append(w)
     if known_hits:
         w = known_hits[0]
-        vlib.known(PROP, f"{known['nested_key_readd_type_change']['what']} ({len(known_hits)} reads in "
+        vlib.known(PROP, f"{known['nested_key_gained_over_stale_data']['what']} ({len(known_hits)} reads in "
                          f"{len({x['case']['c'] for x in known_hits})} chains, e.g. declarations "
                          f"{json.dumps(w['declarations'])[:400]} document {json.dumps(w['document'])[:200]} -> {w['real_code']})")
-    chains = set()
+    # one witness per chain; report the first two chains and the last one (the explicit chains come last)
+    per_chain = {}
     for w in lawfails:
-        if w["case"]["c"] in chains:
-            continue
-        chains.add(w["case"]["c"])
-        if len(chains) <= 3:
-            w["total_broken_reads"] = len(lawfails)
-            vlib.violation(PROP, w)
-            n_viol += 1
+        per_chain.setdefault(w["case"]["c"], w)
+    order = sorted(per_chain)
+    for cno in order[:2] + order[2:][-1:]:
+        w = per_chain[cno]
+        w["total_broken_reads"] = len(lawfails)
+        w["chains_with_broken_reads"] = len(order)
+        vlib.violation(PROP, w)
+        n_viol += 1
     vlib.log(f"[C13] upgrade chains: {counts['upg']} chains, {reads} reads of older documents, promise broken in "
              f"{len(lawfails) + len(known_hits)} ({len(known_hits)} matched by known findings)")
 
